@@ -222,6 +222,21 @@ pub fn committed_index(s: &mut Src, n_in: usize, n_out: usize, groups: bool) {
             }
             saw_lowered = saw_lowered || (all && two && gi < ri);
         }
+        // outgoing half: same rule; the joint result is the minimum of the halves
+        let (go, fo) = ho.committed_index(true, &t);
+        if n_out > 0 {
+            assert!(go <= ro);
+            let (all, two) = groups_summary(&t, &b, n_out);
+            if all && two {
+                let x = two_group_index(&t, &b, n_out);
+                assert!(go == if ro < x { ro } else { x }, "group commit (outgoing half): largest quorum index replicated into two groups");
+                assert!(fo);
+            }
+            if all && !two {
+                assert!(go == ro && !fo, "single group behaves like plain quorum commit (outgoing half)");
+            }
+        }
+        assert!(rg == if gi < go { gi } else { go }, "joint group commit must be the minimum of both halves");
     }
     vcover!(saw_lowered, "group commit lowered the index (where the shape admits it)");
     vcover!(n_in == 0 || n_out == 0 || (ri < ro && r > 0), "incoming half decides");
@@ -264,6 +279,83 @@ pub fn vote_result(s: &mut Src, n_in: usize, n_out: usize) {
     vcover!(res == VoteResult::Won, "won");
     vcover!(res == VoteResult::Lost || (n_in + n_out == 0), "lost");
     vcover!(res == VoteResult::Pending || (n_in + n_out == 0), "pending");
+}
+
+/// the largest index acknowledged by a majority of `set` (n >= 1)
+fn quorum_index(t: &Acks, set: &[u64; NMAX], n: usize) -> u64 {
+    let mut i = 0;
+    while i < n {
+        let c = t.acked(set[i]);
+        if is_quorum_index(t, set, n, c) {
+            return c;
+        }
+        i += 1;
+    }
+    0
+}
+
+fn group_index(t: &Acks, set: &[u64; NMAX], n: usize) -> Option<u64> {
+    if n == 0 {
+        return Some(u64::MAX);
+    }
+    let r = quorum_index(t, set, n);
+    let (all, two) = groups_summary(t, set, n);
+    if !all {
+        return None; // the property only pins the result when every voter has a group
+    }
+    if !two {
+        return Some(r);
+    }
+    let x = two_group_index(t, set, n);
+    Some(if r < x { r } else { x })
+}
+
+/// ProgressTracker::maximal_committed_index with group commit enabled, simple and joint
+/// configurations over ids 1..=5: symbolic matched and commit groups (1..=3, every voter has one).
+pub fn tracker_gc(s: &mut Src, inc: &'static [u64], out: &'static [u64]) {
+    const NONE_P: Option<(u64, Progress)> = None;
+    let mut slots: [Option<(u64, Progress)>; CAP] = [NONE_P; CAP];
+    let mut t = Acks { ids: [0; 2 * NMAX], idx: [0; 2 * NMAX], gid: [0; 2 * NMAX], present: [false; 2 * NMAX], n: 0 };
+    let mut i = 0;
+    while i < 5 {
+        let mut p = Progress::new(1, 1);
+        p.matched = s.u64();
+        p.commit_group_id = 1 + s.below(3);
+        t.ids[i] = 1 + i as u64;
+        t.idx[i] = p.matched;
+        t.gid[i] = p.commit_group_id;
+        t.present[i] = true;
+        slots[i] = Some((1 + i as u64, p));
+        i += 1;
+    }
+    t.n = 5;
+    let progress: ProgressMap = HashMap::verif_from_slots(slots);
+    let conf = Configuration::verif_from_parts(set_of(inc), set_of(out), HashSet::default(), HashSet::default(), false);
+    let no_votes: [Option<(u64, bool)>; CAP] = [None; CAP];
+    let mut prs = ProgressTracker::verif_from_parts(progress, conf, HashMap::verif_from_slots(no_votes), 1, true);
+    let (r, _) = prs.maximal_committed_index();
+    let mut a = [0u64; NMAX];
+    let mut b = [0u64; NMAX];
+    i = 0;
+    while i < inc.len() {
+        a[i] = inc[i];
+        i += 1;
+    }
+    i = 0;
+    while i < out.len() {
+        b[i] = out[i];
+        i += 1;
+    }
+    let plain_i = quorum_index(&t, &a, inc.len());
+    let plain_o = if out.is_empty() { u64::MAX } else { quorum_index(&t, &b, out.len()) };
+    let plain = if plain_i < plain_o { plain_i } else { plain_o };
+    assert!(r <= plain, "group commit exceeds the plain quorum index");
+    let gi = group_index(&t, &a, inc.len()).unwrap();
+    let go = group_index(&t, &b, out.len()).unwrap();
+    assert!(r == if gi < go { gi } else { go }, "group commit through the tracker: largest quorum index replicated into two groups, in each half");
+    vcover!(r < plain, "group commit lowered the index");
+    vcover!(out.is_empty() || (go < gi && r > 0), "outgoing half decides");
+    std::mem::forget(prs);
 }
 
 /// ProgressTracker wrappers: maximal_committed_index (real, no stub), tally_votes,
